@@ -2,7 +2,7 @@
 from fractions import Fraction as Fr
 
 import streams
-from common import parse_q
+from common import parse_q, size
 
 THEOREMS = ["LNN.C01_sound", "LNN.C01_sound_infer", "LNN.C01_no_contradiction", "LNN.C01_no_model_contradiction"]
 MODULES = ["LnnVerif.Props.C01"]
@@ -40,7 +40,7 @@ def nontrivial(rec):
 
 
 def run(rep, tier, seed):
-    n = 300 if tier == "quick" else 6000
+    n = size(tier, 300, 6000)
     progs = [streams.gen_prop_program(seed, k, mode="interp") for k in range(n)]
     recs, first_dis = streams.run_prop_stream(rep, "prop-mixed", progs, FACETS)
     rep.cov["rule"] = ("random weighted propositional DAGs (2-5 atoms, 1-6 connectives incl. Iff/XOr, both "
